@@ -93,6 +93,8 @@ class Finding:
 
 
 class Session:
+    valid_only = False
+
     def __init__(self, *, typed=False, flavour="str", idconf="default", seed=0, ext=False):
         from nutree import Tree
         from nutree.common import DictWrapper
@@ -579,6 +581,10 @@ class Session:
             call = (lambda: tgt.from_dict(items, mapper=_mapper)) if op.get("mapper") else (lambda: tgt.from_dict(items))
         else:
             raise KeyError(k)
+        if self.valid_only and (outcome.kind == "unspec" or (outcome.kind == "refuse" and outcome.why not in (M.UNIQ, M.AMBIG, M.KEYERR, M.UNSUP))):
+            # valid-calls-only mode (used under `python -O`, where argument validation done by assert statements is gone):
+            # only calls the documentation allows, and the refusals the library raises explicitly, are executed
+            raise KeyError("not executed in valid-calls-only mode")
         try:
             ret = call()
             exc = None
@@ -1185,6 +1191,7 @@ def run_history(case, res, *, own_prop, extra_props=()):
     rng = _r.Random(case["seed"])
     s = Session(typed=case.get("typed", False), flavour=case["flavour"], idconf=case.get("idconf", "default"), seed=case["seed"],
                 ext=bool(case.get("ext", case["seed"] % 3 == 0)))
+    s.valid_only = bool(case.get("valid_only"))
     steps = case["steps"]
     nsteps = 0
     findings = []
